@@ -182,13 +182,13 @@ def run_manager(ctx, variant, bits, op, free_lanes, maxblk=2, misalign=0, inplac
                 bad.append(rd(fm, O['lens'] + 2 * i, 2) != lens0[i])
                 bad.append(rd(fm, O['IV'] + 16 * i, 16) != iv0[i])
             r, m = E.check(f, Or(*bad))
-            res.obl.append((name + ' ' + pre + 'C04 park: NULL returned, lane allocated from the stack top, other lanes untouched', r == unsat, str(r), 0))
+            res.obl.append((name + ' ' + pre + 'C04 park: NULL returned, lane allocated from the stack top, other lanes untouched', (True if r == unsat else (False if r == sat else None)), str(r), 0))
             if r == sat:
                 res.viol.append(('C04:%s:park' % name, 'submit with %d free lanes does not park correctly (model: %s)' % (len(free), model_brief(m))))
         else:
             if not active:
                 r, m = E.check(f, ret != 0)
-                res.obl.append((name + ' ' + pre + 'flush of an empty manager returns NULL', r == unsat, str(r), 0))
+                res.obl.append((name + ' ' + pre + 'flush of an empty manager returns NULL', (True if r == unsat else (False if r == sat else None)), str(r), 0))
                 if r == sat:
                     res.viol.append(('C05:%s:empty-flush' % name, 'flush of an empty manager returns non-NULL'))
                 continue
@@ -232,7 +232,7 @@ def run_manager(ctx, variant, bits, op, free_lanes, maxblk=2, misalign=0, inplac
                                      rd(fm, O['jil'] + 8 * i, 8) == 0, (rd(fm, O['unused'], 8) & 0xf) == i))
                 # flush: lanes that were idle must end idle again (0xFFFF) and unused
                 r, m = E.check(f, Not(Or(*conds)))
-                res.obl.append((name + ' ' + pre + 'C04 returned job = a lane with minimal length; status |= COMPLETED_CIPHER only; lane freed', r == unsat, str(r), 0))
+                res.obl.append((name + ' ' + pre + 'C04 returned job = a lane with minimal length; status |= COMPLETED_CIPHER only; lane freed', (True if r == unsat else (False if r == sat else None)), str(r), 0))
                 if r == sat:
                     res.viol.append(('C04:%s:returned-job' % name, 'returned job/status/lane bookkeeping wrong (model: %s)' % model_brief(m)))
                 others = []
@@ -242,7 +242,7 @@ def run_manager(ctx, variant, bits, op, free_lanes, maxblk=2, misalign=0, inplac
                     others.append(And(ret != jaddr, stn != stat0[i]))   # a job that is not returned keeps its status
                     others.append(And(ret != jaddr, rd(fm, O['lens'] + 2 * i, 2) != lens0[i] - mn))
                 r, m = E.check(f, Or(*others))
-                res.obl.append((name + ' ' + pre + 'C04 jobs not returned keep their status; their length shrinks by the common minimum', r == unsat, str(r), 0))
+                res.obl.append((name + ' ' + pre + 'C04 jobs not returned keep their status; their length shrinks by the common minimum', (True if r == unsat else (False if r == sat else None)), str(r), 0))
                 if r == sat:
                     res.viol.append(('C04:%s:others' % name, 'a co-scheduled job was altered (model: %s)' % model_brief(m)))
                 # descriptor write set: only status bytes of the jobs region may differ from the snapshot
